@@ -362,6 +362,9 @@ def run(ctx):
             f = Failure('disagreement', desc, after[:500], m[:500], 'document after the migration step vs the model processor '
                         '(a raise in the model means: left as it is)', 'Vakt.C19 (MongoMig processors)', line=line)
             f.signature = 'model:' + line.split(' ')[1]
+            # the exact document text after a step is not prescribed (its meaning and reversibility are); that an
+            # unrepresentable policy is left untouched is
+            f.weak = m.startswith('ok ')
             out.failures.append(f)
     out.rule = ('collections of 1-4 generated legacy documents in the 1.1.0 (string-encoded rules), 1.1.1 (object rules), '
                 '1.2.0 (typed, context) or current layout with built-in, renamed, custom and newer-only rule payloads, on the '
